@@ -2,7 +2,7 @@
    from the Go source (gen/GenOsmapi.v), in closed form; hence: the URL is defined exactly when
    the options are valid.  The closed forms are consumed by ProofsSpec.v. *)
 From Coq Require Import ZArith List String Ascii Bool Lia.
-From Verif Require Import C20.Syntax C20.Text C20.Types C20.Model C20.SpecApi C20.ProofsText.
+From Verif Require Import C20.Syntax C20.Text C20.Types C20.Model C20.SpecApi C20.ProofsText C20.ProofsFloat.
 From VerifGen Require Import GenOsmapi.
 Import ListNotations.
 Open Scope Z_scope.
@@ -76,7 +76,8 @@ Definition amp : str := lit "&".
 Definition fstring (o : list fopt) : str := join amp (map at_piece o).
 Definition idlist (ids : list Z) : str := join (lit ",") (map dec ids).
 Definition bbox_value (b : bounds) : str :=
-  fmt_f (MinLon b) ++ lit "," ++ fmt_f (MinLat b) ++ lit "," ++ fmt_f (MaxLon b) ++ lit "," ++ fmt_f (MaxLat b).
+  coord_text (MinLon b) ++ lit "," ++ coord_text (MinLat b) ++ lit "," ++
+  coord_text (MaxLon b) ++ lit "," ++ coord_text (MaxLat b).
 Definition bbox_piece (b : bounds) : str := lit "bbox=" ++ bbox_value b.
 Definition q_piece (q : str) : str := lit "q=" ++ query_escape q.
 
